@@ -86,6 +86,12 @@ def main(argv=None):
         sys.exit(0 if ok else 1)
     t0 = time.time()
     try:
+        # safety net against pathological slow-downs of the code under test: explorations stop
+        # (and report what they covered, as capped) when the wall-clock budget is used up
+        import time as _t
+        budget = float(os.environ.get("VERIF_TIME_BUDGET") or
+                       (900 if args.tier == "quick" else 5400))
+        os.environ["VERIF_DEADLINE"] = str(_t.time() + budget)
         res = mod.run(args.tier, seed, args.jobs)
     except Exception:
         traceback.print_exc()
